@@ -4,4 +4,11 @@ AllLeakSets == AllLeaks
 ASSUME AllValuesOccur(QuickPlan)
 ASSUME AllValuesOccur(ThoroughPlan)
 ASSUME PairwiseCovering(ThoroughPlan)
+\* a dependence need not be on a whole dimension: it can single out one value (e.g. only "crlf" among the states of
+\* the output directory).  Because every value occurs, every non-constant function of one dimension is exposed:
+ExposesEveryFunction(plan) ==
+    \A d \in Dims : \A f \in [Values[d] -> {0, 1}] :
+        (\E v, w \in Values[d] : f[v] # f[w]) => \E i, j \in DOMAIN plan : f[plan[i][d]] # f[plan[j][d]]
+ASSUME ExposesEveryFunction(QuickPlan)
+ASSUME ExposesEveryFunction(ThoroughPlan)
 ====
